@@ -601,6 +601,11 @@ def replay(prop, path):
     """Re-runs one recorded violating behaviour."""
     with open(path) as fh:
         rp = json.load(fh)["replay"]
+    if "behaviour" not in rp:
+        # locator records, linearization traces, crash images of a behaviour ...: the file holds the observation itself
+        print("the replay file holds the recorded observation (engine %s); it is re-examined by re-running ./check %s" % (
+            rp.get("engine", "?"), prop))
+        return 0
     with Scratch(prop + "_replay") as scratch:
         binary = build_harness(scratch)
         p = os.path.join(scratch, "beh.jsonl")
